@@ -216,8 +216,8 @@ def judge(text, yc, toks, objs, complete):
             fails.append(('position', 'token %r is at %d:%d by counting ES5 line terminators' % (tv[:5], el, ec),
                           'KF-06a' if bare_before else None))
         if val in ES5_PUNCT_SET and ty not in ('STRING', 'REGEX'):
-            longest = max((p for p in ES5_PUNCT if text.startswith(p, lexpos)), key=len)
-            if longest != val:
+            longest = max((p for p in ES5_PUNCT if text.startswith(p, lexpos)), key=len, default=None)
+            if longest is not None and longest != val:
                 fails.append(('munch', 'punctuator %r at %d although %r is a prefix of the rest' % (val, lexpos, longest), None))
         if ty in kw_types or ty == 'ID':
             is_res = val in ES5_RESERVED
